@@ -1,2 +1,61 @@
-(* C04 -- placeholder while the proofs are being written *)
-From LibTw2 Require Import Model.Conn6.
+(* C04 -- everything the connection layer sends is well-formed; bad sends are refused;
+   no sequence of valid API calls panics. Stated over ALL histories (run6 / run7 fold the
+   step function over an arbitrary list of labels). `dgram_ok` is the well-formedness of an
+   emitted datagram at the level of packet values: ack and sequence numbers in range, chunk
+   count equal to the number of chunks carried and at most 255, every chunk within the size
+   field, encoded size at most 1400 bytes; Props/C05 turns that into "the library's own reader
+   returns the same value without a warning". *)
+From LibTw2 Require Import Base.Res Model.PacketTypes Model.ConnCore Model.Conn6 Model.Conn7
+  Proofs.ConnCoreInv Proofs.Conn6Inv Proofs.Conn7Inv.
+From Coq Require Import ZArith List.
+Open Scope Z_scope.
+
+Theorem C04_all_histories6 : forall ls e, valid_run6 conn6_new e ls ->
+  exists c' e' ds, run6 conn6_new e ls = Ok (c', e', ds)       (* no Panic, no OutOfFuel *)
+    /\ conn_ok6 c' /\ Forall (dgram_ok params6) ds.
+Proof. intros ls e Hv. exact (run_ok6 ls conn6_new e conn6_new_ok Hv). Qed.
+
+Theorem C04_all_histories7 : forall ls e, valid_run7 conn7_new e ls ->
+  exists c' e' ds, run7 conn7_new e ls = Ok (c', e', ds)
+    /\ conn_ok7 c' /\ Forall (dgram_ok params7) ds.
+Proof. intros ls e Hv. exact (run_ok7 ls conn7_new e conn7_new_ok Hv). Qed.
+
+(* one step from any state satisfying the invariant (used for new_accept_token states as well) *)
+Theorem C04_step6 : forall c e o, conn_ok6 c -> valid_op6 c e o ->
+  exists out, step c e o = Ok out /\ conn_ok6 (out_conn out) /\ Forall (dgram_ok params6) (out_sent out).
+Proof. exact step_ok6. Qed.
+Theorem C04_step7 : forall c e o, conn_ok7 c -> valid_op7 c e o ->
+  exists out, step7 c e o = Ok out /\ conn_ok7 (out7_conn out) /\ Forall (dgram_ok params7) (out7_sent out).
+Proof. exact step7_ok. Qed.
+
+(* a payload that cannot be carried is refused and the connection is untouched *)
+Theorem C04_refusal6 : forall c e on data vital,
+  c_state c = Online on ->
+  MAX_PAYLOAD < Z.of_nat (length data) \/ 1024 <= Z.of_nat (length data) ->
+  step c e (OpSend data vital) = Ok (mk c e [] [] [] RTooLongData).
+Proof. exact refusal6. Qed.
+Theorem C04_refusal7 : forall c e on data vital,
+  c7_state c = Online7 on -> MAX_PAYLOAD < Z.of_nat (length data) ->
+  step7 c e (Op7Send data vital) = Ok (mk7 c e [] [] [] R7TooLongData).
+Proof. exact refusal7. Qed.
+
+(* non-vacuity: a concrete valid history (client side: connect, accepted, 300 tiny chunks queued
+   without a flush, a flush) runs through and emits two datagrams, the first carrying 255 chunks *)
+Definition tiny_sends (n : nat) : list label6 := repeat (LOp (OpSend [7] false)) n.
+Definition demo_history : list label6 :=
+  [LOp OpConnect; LOp (OpFeed (DControl (Some [9;9;9;9]) 0 ConnectAccept))] ++ tiny_sends 300 ++ [LOp OpFlush].
+Example C04_nonvacuous :
+  match run6 conn6_new {| e_now := 0; e_rand := [] |} demo_history with
+  | Ok (_, _, ds) => map (fun d => match d with DChunks _ _ _ n cs => (n, Z.of_nat (length cs)) | _ => (0, 0) end) ds
+                     = [(0, 0); (0, 0); (255, 255); (45, 45)]
+  | _ => False
+  end.
+Proof. vm_compute. reflexivity. Qed.
+
+Print Assumptions C04_all_histories6.
+Print Assumptions C04_all_histories7.
+Print Assumptions C04_step6.
+Print Assumptions C04_step7.
+Print Assumptions C04_refusal6.
+Print Assumptions C04_refusal7.
+Print Assumptions C04_nonvacuous.
